@@ -596,3 +596,405 @@ theorem schemaMerge_vmok2 (anc ours theirs merged : Schema) (fl : Flags)
     fun c hc => ⟨v.s1 c hc, fun hb => schemaMerge_base_col anc ours theirs merged fl h c hc hb⟩, rfl⟩
 
 end DoltVerif.RowMerge
+
+namespace DoltVerif.RowMerge
+
+/-! ### a side that needs no rewrite already has the result layout -/
+
+theorem isIdentityAux_get (k : Nat) (m : List (Option Nat)) (h : isIdentityAux k m = true) (i : Nat)
+    (hi : i < m.length) : m[i]? = some (some (k + i)) := by
+  induction m generalizing k i with
+  | nil => simp at hi
+  | cons x xs ih =>
+    simp only [isIdentityAux, Bool.and_eq_true, beq_iff_eq] at h
+    cases i with
+    | zero => simp [h.1]
+    | succ j =>
+      have := ih (k + 1) h.2 j (by simpa using hi)
+      simp only [List.getElem?_cons_succ, this]
+      congr 2; omega
+
+/-- if the mapping result → side is the identity and both have the same number of columns, mapping a
+well-typed row of the side into the result schema changes nothing -/
+theorem projRow_of_identity (msch side : Schema) (hid : isIdentity (mapping msch side) = true)
+    (hlen : side.length = msch.length) (row : Row) (hrow : rowOk side row = true) :
+    projRow msch side row = row := by
+  have hl := rowOk_length side row hrow
+  apply List.ext_getElem?
+  intro i
+  by_cases hi : i < msch.length
+  · have hm := isIdentityAux_get 0 (mapping msch side) hid i (by simpa [mapping] using hi)
+    simp only [mapping_get, List.getElem?_eq_getElem hi, Option.map_some, Nat.zero_add] at hm
+    have hf : findCol side (msch[i]).id = some i := by simpa using hm
+    have hr : i < row.length := by omega
+    simp [projRow, List.getElem?_eq_getElem hi, cellOf, hf, cellAt, List.getElem?_eq_getElem hr]
+  · have h1 : (projRow msch side row).length ≤ i := by simp [projRow]; omega
+    have h2 : row.length ≤ i := by omega
+    simp [List.getElem?_eq_none h1, List.getElem?_eq_none h2]
+
+theorem projRow_self (s : Schema) (hd : idsDistinct s = true) (row : Row) (hrow : rowOk s row = true) :
+    projRow s s row = row := by
+  have hl := rowOk_length s row hrow
+  apply List.ext_getElem?
+  intro i
+  by_cases hi : i < s.length
+  · have hf := findCol_self s hd i s[i] (List.getElem?_eq_getElem hi)
+    have hr : i < row.length := by omega
+    simp [projRow, List.getElem?_eq_getElem hi, cellOf, hf, cellAt, List.getElem?_eq_getElem hr]
+  · have h1 : (projRow s s row).length ≤ i := by simp [projRow]; omega
+    have h2 : row.length ≤ i := by omega
+    simp [List.getElem?_eq_none h1, List.getElem?_eq_none h2]
+
+/-- **hidL / hidR derived from the schema merge** -/
+theorem schemaMerge_noRewrite (anc ours theirs msch : Schema) (fl : Flags)
+    (ho : idsDistinct ours = true) (ht : idsDistinct theirs = true)
+    (h : schemaMerge anc ours theirs = .ok (msch, fl)) :
+    (fl.leftNeedsRewrite = false → ∀ row, rowOk ours row = true → projRow msch ours row = row) ∧
+    (fl.rightNeedsRewrite = false → ∀ row, rowOk theirs row = true → projRow msch theirs row = row) := by
+  unfold schemaMerge at h
+  by_cases he : anc = ours ∧ anc = theirs
+  · obtain ⟨e1, e2⟩ := he
+    subst e1; subst e2
+    simp [pure, Except.pure] at h
+    obtain ⟨e3, _⟩ := h
+    subst e3
+    exact ⟨fun _ row hr => projRow_self _ ho row hr, fun _ row hr => projRow_self _ ht row hr⟩
+  · simp only [he, if_false, bind, Except.bind, pure, Except.pure] at h
+    cases h1 : mergeColumns anc ours theirs with
+    | error e => simp [h1] at h
+    | ok p =>
+      obtain ⟨m, f⟩ := p
+      simp [h1] at h
+      obtain ⟨e1, e2⟩ := h
+      subst e1; subst e2
+      constructor
+      · intro hf row hr
+        simp only [Bool.or_eq_false_iff, Bool.not_eq_false', bne_eq_false_iff_eq] at hf
+        exact projRow_of_identity m ours hf.2.1 (by simpa using congrArg List.length hf.2.2) row hr
+      · intro hf row hr
+        simp only [Bool.or_eq_false_iff, Bool.not_eq_false', bne_eq_false_iff_eq] at hf
+        exact projRow_of_identity m theirs hf.2.1 (by simpa using congrArg List.length hf.2.2) row hr
+
+end DoltVerif.RowMerge
+
+namespace DoltVerif.RowMerge
+
+/-! ### the merged schema's column set does not depend on the merge direction -/
+
+theorem mergeColumnsAux_complete (anc : Schema) (f : Col → Option Col × Option Col) (cols out : Schema)
+    (fl : Flags) (h : mergeColumnsAux anc f cols = .ok (out, fl)) (c : Col) (hc : c ∈ cols) (y : Col)
+    (hy : (mergeOneColumn (lookupCol anc c.id) (f c).1 (f c).2).map Prod.fst = .ok (some y)) : y ∈ out := by
+  induction cols generalizing out fl with
+  | nil => simp at hc
+  | cons d ds ih =>
+    simp only [mergeColumnsAux, bind, Except.bind, pure, Except.pure] at h
+    cases h1 : mergeOneColumn (lookupCol anc d.id) (f d).1 (f d).2 with
+    | error e => simp [h1] at h
+    | ok p =>
+      obtain ⟨mc, f1⟩ := p
+      cases h2 : mergeColumnsAux anc f ds with
+      | error e => simp [h1, h2] at h
+      | ok q =>
+        obtain ⟨rest, f2⟩ := q
+        simp [h1, h2] at h
+        obtain ⟨hout, _⟩ := h
+        rcases List.mem_cons.1 hc with rfl | hc'
+        · rw [h1] at hy
+          simp [Except.map] at hy
+          subst hy
+          simp at hout; subst hout; simp
+        · have := ih rest f2 h2 hc'
+          cases mc with
+          | none => simp at hout; subst hout; exact this
+          | some z => simp at hout; subst hout; exact List.mem_cons_of_mem _ this
+
+theorem schemaMerge_complete (anc ours theirs merged : Schema) (fl : Flags)
+    (tc : TypeConsistent anc ours theirs) (h : schemaMerge anc ours theirs = .ok (merged, fl)) (x : Col) :
+    (x ∈ ours → (findCol anc x.id ≠ none → findCol theirs x.id ≠ none) → x ∈ merged) ∧
+    (x ∈ theirs → findCol anc x.id = none → findCol ours x.id = none → x ∈ merged) := by
+  unfold schemaMerge at h
+  by_cases he : anc = ours ∧ anc = theirs
+  · obtain ⟨e1, e2⟩ := he
+    subst e1; subst e2
+    simp [pure, Except.pure] at h
+    obtain ⟨e3, _⟩ := h
+    subst e3
+    exact ⟨fun hx _ => hx, fun hx _ _ => hx⟩
+  · simp only [he, if_false, bind, Except.bind, pure, Except.pure] at h
+    cases h1 : mergeColumns anc ours theirs with
+    | error e => simp [h1] at h
+    | ok p =>
+      obtain ⟨m, f⟩ := p
+      simp [h1] at h
+      obtain ⟨e1, _⟩ := h
+      subst e1
+      simp only [mergeColumns, bind, Except.bind, pure, Except.pure] at h1
+      cases h2 : mergeColumnsAux anc (fun c => (some c, lookupCol theirs c.id)) ours with
+      | error e => simp [h2] at h1
+      | ok q =>
+        obtain ⟨a, f1⟩ := q
+        cases h3 : mergeColumnsAux anc (fun c => (none, some c))
+            (theirs.filter (fun c => (lookupCol ours c.id).isNone)) with
+        | error e => simp [h2, h3] at h1
+        | ok q2 =>
+          obtain ⟨b2, f2⟩ := q2
+          simp [h2, h3] at h1
+          obtain ⟨hm, _⟩ := h1
+          subst hm
+          constructor
+          · intro hx hbt
+            apply List.mem_append_left
+            -- what mergeOneColumn returns for x
+            cases ha : lookupCol anc x.id with
+            | none =>
+              cases ht : lookupCol theirs x.id with
+              | none => exact mergeColumnsAux_complete _ _ _ _ _ h2 x hx x (by simp [ha, ht, mergeOneColumn, Except.map])
+              | some t =>
+                obtain ⟨htm, hti⟩ := lookupCol_some theirs x.id t ht
+                have : x = t := col_ext x t hti.symm (tc.ot x hx t htm hti.symm)
+                exact mergeColumnsAux_complete _ _ _ _ _ h2 x hx x (by simp [ha, ht, mergeOneColumn, Except.map, ← this])
+            | some a0 =>
+              obtain ⟨ham, hai⟩ := lookupCol_some anc x.id a0 ha
+              have hax : a0 = x := col_ext a0 x hai (tc.bo a0 ham x hx hai)
+              have hfa : findCol anc x.id ≠ none := findCol_ne_none_of_lookupCol anc x.id (by rw [ha]; simp)
+              have hlt := lookupCol_ne_none_of_findCol theirs x.id (hbt hfa)
+              cases ht : lookupCol theirs x.id with
+              | none => exact absurd ht hlt
+              | some t =>
+                obtain ⟨htm, hti⟩ := lookupCol_some theirs x.id t ht
+                have hxt : x = t := col_ext x t hti.symm (tc.ot x hx t htm hti.symm)
+                exact mergeColumnsAux_complete _ _ _ _ _ h2 x hx x (by simp [ha, ht, mergeOneColumn, Except.map, hax, ← hxt])
+          · intro hx hb ho
+            apply List.mem_append_right
+            have hla : lookupCol anc x.id = none := by
+              cases hl : lookupCol anc x.id with
+              | none => rfl
+              | some d => exact absurd hb (findCol_ne_none_of_lookupCol anc x.id (by rw [hl]; simp))
+            have hlo : lookupCol ours x.id = none := by
+              cases hl : lookupCol ours x.id with
+              | none => rfl
+              | some d => exact absurd ho (findCol_ne_none_of_lookupCol ours x.id (by rw [hl]; simp))
+            have hxf : x ∈ theirs.filter (fun c => (lookupCol ours c.id).isNone) := by
+              simp [List.mem_filter, hx, hlo]
+            exact mergeColumnsAux_complete _ _ _ _ _ h3 x hxf x (by simp [hla, mergeOneColumn, Except.map])
+
+end DoltVerif.RowMerge
+
+namespace DoltVerif.RowMerge
+
+theorem TypeConsistent.swap {b o t : Schema} (tc : TypeConsistent b o t) : TypeConsistent b t o :=
+  ⟨tc.bb, tc.bt, tc.bo, tc.tt, tc.ot.symm, tc.oo⟩
+
+/-- a column id of the merged schema of one direction is a column id of the other direction's -/
+theorem schemaMerge_ids_symm (anc ours theirs m1 m2 : Schema) (fl1 fl2 : Flags)
+    (tc : TypeConsistent anc ours theirs)
+    (h1 : schemaMerge anc ours theirs = .ok (m1, fl1)) (h2 : schemaMerge anc theirs ours = .ok (m2, fl2))
+    (id : Nat) (hid : findCol m1 id ≠ none) : findCol m2 id ≠ none := by
+  cases hf : findCol m1 id with
+  | none => exact absurd hf hid
+  | some j =>
+    obtain ⟨x, hxj, hxid⟩ := findCol_some m1 id j hf
+    have hxm : x ∈ m1 := mem_of_get _ _ _ hxj
+    subst hxid
+    have c2 := schemaMerge_complete anc theirs ours m2 fl2 tc.swap h2
+    rcases schemaMerge_mem anc ours theirs m1 fl1 h1 x hxm with hxo | ⟨hxt, hanc, hours⟩
+    · cases hft : findCol theirs x.id with
+      | some jt =>
+        obtain ⟨t, htj, htid⟩ := findCol_some theirs x.id jt hft
+        have htm : t ∈ theirs := mem_of_get _ _ _ htj
+        have := (c2 t).1 htm (fun _ => by rw [htid]; exact findCol_ne_none_of_mem ours x hxo)
+        rw [← htid]; exact findCol_ne_none_of_mem m2 t this
+      | none =>
+        have hb : findCol anc x.id = none := by
+          apply Classical.byContradiction; intro hb
+          exact (schemaMerge_base_col anc ours theirs m1 fl1 h1 x hxm hb).2 hft
+        exact findCol_ne_none_of_mem m2 x ((c2 x).2 hxo hb hft)
+    · have := (c2 x).1 hxt (fun hb => absurd (findCol_none_of_forall anc x.id (lookupCol_none anc x.id hanc)) hb)
+      exact findCol_ne_none_of_mem m2 x this
+
+/-! ### the by-column-id specification is symmetric in the two sides -/
+
+theorem cellMerge_comm (b l r : Val) : cellMerge b r l = cellMerge b l r := by
+  unfold cellMerge
+  by_cases h1 : l = r
+  · subst h1; rfl
+  · have h1' : ¬ r = l := fun e => h1 e.symm
+    by_cases h2 : l = b <;> by_cases h3 : r = b <;> simp_all
+
+theorem cellMergeNoBase_comm (l r : Val) : cellMergeNoBase r l = cellMergeNoBase l r := by
+  unfold cellMergeNoBase
+  by_cases h1 : l = r
+  · subst h1; rfl
+  · have h1' : ¬ r = l := fun e => h1 e.symm
+    simp [h1, h1']
+
+theorem cellSpec_swap (B L R M1 M2 : Schema) (k1 k2 : Bool) (id : Nat) (l r : Row) (b : Option Row) :
+    cellSpec ⟨B, R, L, M2, k2⟩ id r l b = cellSpec ⟨B, L, R, M1, k1⟩ id l r b := by
+  simp only [cellSpec]
+  cases (b.bind fun bb => cellOf B bb id) <;> cases cellOf L l id <;> cases cellOf R r id <;>
+    simp [cellMerge_comm, cellMergeNoBase_comm]
+
+theorem dropConflict_swap (B L R M1 M2 : Schema) (k1 k2 : Bool) (id : Nat) (bv : Val) (l r : Option Row) :
+    dropConflict ⟨B, R, L, M2, k2⟩ id bv r l = dropConflict ⟨B, L, R, M1, k1⟩ id bv l r := by
+  cases l <;> cases r <;> simp only [dropConflict]
+  rename_i ll rr
+  cases cellOf L ll id <;> cases cellOf R rr id <;> rfl
+
+theorem dropSpec_swap (B L R M1 M2 : Schema) (k1 k2 : Bool) (l r b : Option Row) :
+    dropSpec ⟨B, R, L, M2, k2⟩ r l b = dropSpec ⟨B, L, R, M1, k1⟩ l r b := by
+  cases b with
+  | none => rfl
+  | some bb =>
+    simp only [dropSpec]
+    congr 1
+    funext i
+    cases B[i]? <;> simp [dropConflict_swap B L R M1 M2 k1 k2]
+
+end DoltVerif.RowMerge
+
+namespace DoltVerif.RowMerge
+
+/-- two stored rows under two result schemas are the same row as maps column id → cell -/
+def RowsEqById (M1 M2 : Schema) (r1 r2 : Option Row) : Prop :=
+  match r1, r2 with
+  | none, none => True
+  | some a, some b => ∀ id, cellOf M1 a id = cellOf M2 b id
+  | _, _ => False
+
+theorem rowSpecSchema_none_iff (m : VM) (ll rr : Row) (b : Option Row) :
+    rowSpecSchema m ll rr b = none ↔ ∃ c, c ∈ m.resultSch ∧ (cellSpec m c.id ll rr b).2 = true := by
+  unfold rowSpecSchema
+  rw [colsSpec_none_iff]
+  constructor
+  · rintro ⟨j, _, hj, hc⟩
+    have hj' : j < m.resultSch.length := by omega
+    simp only [List.getElem?_eq_getElem hj'] at hc
+    exact ⟨_, List.getElem_mem hj', hc⟩
+  · rintro ⟨c, hc, hcc⟩
+    obtain ⟨j, hj, rfl⟩ := List.getElem_of_mem hc
+    exact ⟨j, Nat.zero_le _, by omega, by simpa [List.getElem?_eq_getElem hj] using hcc⟩
+
+theorem rowSpecSchema_cell (m : VM) (ll rr : Row) (b : Option Row) (row : Row)
+    (h : rowSpecSchema m ll rr b = some row) (id : Nat) :
+    cellOf m.resultSch row id = (findCol m.resultSch id).map (fun _ => (cellSpec m id ll rr b).1) := by
+  unfold rowSpecSchema at h
+  obtain ⟨hl, hget⟩ := colsSpec_some_get _ _ _ _ h
+  cases hf : findCol m.resultSch id with
+  | none => simp [cellOf, hf]
+  | some j =>
+    obtain ⟨c, hc, hid⟩ := findCol_some m.resultSch id j hf
+    have hj : j < m.resultSch.length := by
+      apply Classical.byContradiction; intro hn
+      have := List.getElem?_eq_none (Nat.le_of_not_lt hn); rw [hc] at this; cases this
+    have := hget j hj
+    simp only [Nat.zero_add, hc] at this
+    simp [cellOf, hf, cellAt, this, hid]
+
+theorem projRow_cell (M S : Schema) (row : Row) (id : Nat) :
+    cellOf M (projRow M S row) id = (findCol M id).map (fun _ => (cellOf S row id).join) := by
+  cases hf : findCol M id with
+  | none => simp [cellOf, hf]
+  | some j =>
+    obtain ⟨c, hc, hid⟩ := findCol_some M id j hf
+    simp [cellOf, hf, cellAt, projRow, hc, hid]
+
+/-- swapping the sides: the same conflict decision, and (when merged) the same row by column id -/
+theorem tryMergeSpec_swap (B L R M1 M2 : Schema)
+    (hids : ∀ id, findCol M1 id ≠ none ↔ findCol M2 id ≠ none) (l r b : Option Row) :
+    (tryMergeSpec ⟨B, R, L, M2, false⟩ r l b).2 = (tryMergeSpec ⟨B, L, R, M1, false⟩ l r b).2 ∧
+    RowsEqById M1 M2 (tryMergeSpec ⟨B, L, R, M1, false⟩ l r b).1 (tryMergeSpec ⟨B, R, L, M2, false⟩ r l b).1 := by
+  unfold tryMergeSpec
+  rw [dropSpec_swap B L R M1 M2 false false l r b]
+  cases dropSpec ⟨B, L, R, M1, false⟩ l r b with
+  | true => simp [RowsEqById]
+  | false =>
+    cases l with
+    | none => cases r <;> simp [RowsEqById]
+    | some ll =>
+      cases r with
+      | none => simp [RowsEqById]
+      | some rr =>
+        simp only [Bool.false_eq_true, if_false]
+        have hnone : rowSpecSchema ⟨B, R, L, M2, false⟩ rr ll b = none ↔
+            rowSpecSchema ⟨B, L, R, M1, false⟩ ll rr b = none := by
+          rw [rowSpecSchema_none_iff, rowSpecSchema_none_iff]
+          constructor
+          · rintro ⟨c, hc, hcc⟩
+            have h2 : findCol M1 c.id ≠ none := (hids c.id).2 (findCol_ne_none_of_mem M2 c hc)
+            cases hf : findCol M1 c.id with
+            | none => exact absurd hf h2
+            | some j =>
+              obtain ⟨d, hd, hdi⟩ := findCol_some M1 c.id j hf
+              refine ⟨d, mem_of_get _ _ _ hd, ?_⟩
+              rw [hdi, ← cellSpec_swap B L R M1 M2 false false]; exact hcc
+          · rintro ⟨c, hc, hcc⟩
+            have h2 : findCol M2 c.id ≠ none := (hids c.id).1 (findCol_ne_none_of_mem M1 c hc)
+            cases hf : findCol M2 c.id with
+            | none => exact absurd hf h2
+            | some j =>
+              obtain ⟨d, hd, hdi⟩ := findCol_some M2 c.id j hf
+              refine ⟨d, mem_of_get _ _ _ hd, ?_⟩
+              rw [hdi, cellSpec_swap B L R M1 M2 false false]; exact hcc
+        cases h1 : rowSpecSchema ⟨B, L, R, M1, false⟩ ll rr b with
+        | none => simp [hnone.2 h1, RowsEqById]
+        | some row1 =>
+          cases h2 : rowSpecSchema ⟨B, R, L, M2, false⟩ rr ll b with
+          | none => rw [hnone.1 h2] at h1; cases h1
+          | some row2 =>
+            refine ⟨rfl, fun id => ?_⟩
+            rw [rowSpecSchema_cell _ _ _ _ _ h1 id, rowSpecSchema_cell _ _ _ _ _ h2 id,
+              cellSpec_swap B L R M1 M2 false false]
+            simp only []
+            cases hf1 : findCol M1 id with
+            | none =>
+              have : findCol M2 id = none := by
+                apply Classical.byContradiction; intro hn; exact ((hids id).2 hn) hf1
+              simp [this]
+            | some j1 =>
+              cases hf2 : findCol M2 id with
+              | none => exact absurd hf2 ((hids id).1 (by rw [hf1]; simp))
+              | some j2 => simp
+
+end DoltVerif.RowMerge
+
+namespace DoltVerif.RowMerge
+
+theorem projRow_eqById (M1 M2 S : Schema) (hids : ∀ id, findCol M1 id ≠ none ↔ findCol M2 id ≠ none) (row : Row) :
+    RowsEqById M1 M2 (some (projRow M1 S row)) (some (projRow M2 S row)) := by
+  intro id
+  rw [projRow_cell, projRow_cell]
+  cases hf1 : findCol M1 id with
+  | none =>
+    have : findCol M2 id = none := by
+      apply Classical.byContradiction; intro hn; exact ((hids id).2 hn) hf1
+    simp [this]
+  | some j1 =>
+    cases hf2 : findCol M2 id with
+    | none => exact absurd hf2 ((hids id).1 (by rw [hf1]; simp))
+    | some j2 => simp
+
+/-- **the per-key specification under a schema change is symmetric** up to the column permutation
+between the two directions' result schemas: the same keys conflict, and an unconflicted key holds the
+same row as a map column id → cell -/
+theorem specSchemaKey_swap (B L R M1 M2 : Schema) (fl1 fl2 : Flags)
+    (hids : ∀ id, findCol M1 id ≠ none ↔ findCol M2 id ≠ none) (b l r : Option Row) :
+    (specSchemaKey ⟨⟨B, R, L, M2, false⟩, fl2⟩ b r l).2 = (specSchemaKey ⟨⟨B, L, R, M1, false⟩, fl1⟩ b l r).2 ∧
+    ((specSchemaKey ⟨⟨B, L, R, M1, false⟩, fl1⟩ b l r).2 = false →
+      RowsEqById M1 M2 (specSchemaKey ⟨⟨B, L, R, M1, false⟩, fl1⟩ b l r).1
+        (specSchemaKey ⟨⟨B, R, L, M2, false⟩, fl2⟩ b r l).1) := by
+  obtain ⟨hflag, hrow⟩ := tryMergeSpec_swap B L R M1 M2 hids l r b
+  cases b <;> cases l <;> cases r <;> simp only [specSchemaKey, Option.map] <;>
+    first
+      | (simp [RowsEqById]; done)
+      | (exact ⟨rfl, fun _ => projRow_eqById M1 M2 _ hids _⟩)
+      | (revert hflag hrow
+         cases tryMergeSpec ⟨B, L, R, M1, false⟩ _ _ _ with
+         | mk a1 k1 =>
+           cases tryMergeSpec ⟨B, R, L, M2, false⟩ _ _ _ with
+           | mk a2 k2 =>
+             intro hflag hrow
+             simp only at hflag hrow
+             subst hflag
+             cases k2 <;> simp_all <;> try exact projRow_eqById M1 M2 _ hids _)
+
+end DoltVerif.RowMerge
